@@ -1330,3 +1330,39 @@ package ice
 //@ func (*PostingsIterator).loadChunk
 //@   ensures[C05,C19] @failed_load_keeps_tag result0 != nil ==> i.currChunk == old(i.currChunk)
 //@   ensures[C05,C19] @failed_load_leaves_decoders_coherent result0 != nil && i.includeFreqNorm && i.includeLocs && i.freqNormReader != i.locReader ==> len(i.freqNormReader.curChunkBytes) == old(len(i.freqNormReader.curChunkBytes)) && i.freqNormReader.r == old(i.freqNormReader.r)
+//@
+//@ // ---- C06/C10: a stored-field block holds exactly chunkSize documents (the reader picks the block as n / 128) ----
+//@ func (*chunkedDocumentCoder).newLine
+//@   ensures[C04,C06,C10] @block_closed_every_chunkSize_documents result0 == nil ==> c.n == old(c.n) + 1 && len(c.offsets) == old(len(c.offsets)) + ite(c.n % c.chunkSize == 0, 1, 0)
+//@
+//@ // ---- C08: a dictionary with terms always enumerates through the FST search over the requested range ----
+//@ func (*Dictionary).Iterator
+//@   ensures[C08] @enumeration_is_the_fst_search d.fst != nil ==> result0 != emptyDictionaryIterator && dyntype(result0) == typetag("*DictionaryIterator") && fresh(result0) && cast(result0, "*DictionaryIterator").d == d
+//@
+//@ // ---- C07/C13: loading a chunk invalidates the decompressed copy of the previous one ----
+//@ func (*docValueReader).loadDvChunk
+//@   ensures[C07,C13] @stale_decompressed_copy_dropped result0 == nil ==> len(di.uncompressed) == 0
+//@
+//@ // ---- C18: the result is the union over ALL listed terms ----
+//@ // tdocs(s, t) names the documents of segment s that contain the (field, text) pair of term object t:
+//@ // by definition what the dictionary of t's field in s says for t's text, and empty for a field s
+//@ // does not have (the two `assume` clauses below are that definition). dmtU folds the union.
+//@ uninterpreted tdocs(s int, t int) set
+//@ uninterpreted dmtU(ta intarr, to int, s int, j int) set
+//@ axiom dmtU-zero (ta intarr, to int, s int) : dmtU(ta, to, s, 0) == emptyset() pattern dmtU(ta, to, s, 0)
+//@ axiom dmtU-step (ta intarr, to int, s int, j int, e int) : e == j + 1 && j >= 0 ==> dmtU(ta, to, s, e) == setunion(dmtU(ta, to, s, j), tdocs(s, select(ta, to + j))) pattern dmtU(ta, to, s, j), dmtU(ta, to, s, e)
+//@ spec plDocs(nb int, d1 int, p int, bs setheap) set = ite(nb != 0, store(emptyset(), d1, true), ite(p != 0, select(bs, p), emptyset()))
+//@ ghostfield * dmtacc set
+//@ func (*Segment).DocsMatchingTerms
+//@   // ownership: rv is this function's private accumulator; it is handed to OrInto only, so the
+//@   // dictionary and postings lookups of an iteration leave it as it was at the iteration's start
+//@   at call:(github.com/blugelabs/bluge_segment_api.Term).Field#0 ghostset dmtacc(rv) = bset(rv)
+//@   at call:(*Dictionary).postingsList#0 assume bset(rv) == dmtacc(rv)
+//@   at call:(*Segment).dictionary#0 assume bset(rv) == dmtacc(rv)
+//@   at call:(*Segment).dictionary#0 assume result1 == nil && result0 == nil ==> tdocs(s, term) == emptyset()
+//@   at call:(*Dictionary).postingsList#0 assume result1 == nil ==> plDocs(result0.normBits1Hit, result0.docNum1Hit, result0.postings, heap("X$_$bset")) == tdocs(s, term)
+//@   loop 0 invariant[C18] @union_so_far bset(rv) == dmtU(contents(terms), off(terms), s, rangeindex + 1)
+//@   loop 0 invariant[C18] dict == nil && rangeindex >= 0 && lastField == termField(terms[rangeindex]) ==> tdocs(s, terms[rangeindex]) == emptyset()
+//@   at call:(*PostingsList).OrInto#0 lemma[C18] bset(rv) == setunion(dmtU(contents(terms), off(terms), s, rangeindex + 1), tdocs(s, term))
+//@   ensures[C18] @union_of_all_terms result1 == nil && old(len(s.fieldsMap)) > 0 ==> bset(result0) == dmtU(contents(terms), off(terms), s, len(terms))
+//@   ensures[C18] @no_fields_no_documents result1 == nil && old(len(s.fieldsMap)) == 0 ==> bset(result0) == emptyset()
